@@ -33,6 +33,8 @@ fn main() {
         "C15child" => engines::c15::child_main(),
         "C22" => engines::c22::main(&args),
         "C22child" => engines::c22::child_main(),
+        "C27" => engines::c27::main(&args),
+        "C27child" => engines::c27::child_main(),
         "C01" => engines::c01::main(&args),
         "RTchild" => engines::rt::child_main(),
         "C20" => engines::c20::main(&args),
